@@ -70,7 +70,9 @@ func lroutes(rec *sync.Map) RouteList {
 	rej := &Route{matcherSets: MatcherSets{MatcherSet{&vmErr{'E'}}}}
 	big := &Route{matcherSets: first('B', 3000)} // forces several prefetch rounds, then falls through
 	big.middleware = append(big.middleware, wrapHandler(NextHandlerFunc(func(cx *Connection, next Handler) error { return next.Handle(cx) })))
-	return RouteList{term, cons, wrp, rej, big}
+	// wrp is last: nothing re-matches after it, so the bytes it left unread are still in the outer connection's (pooled) buffer
+	// when the connection is handed over
+	return RouteList{term, cons, rej, big, wrp}
 }
 
 // lpass reads through the Connection it was made from (what a protocol-terminating wrapper does)
@@ -122,6 +124,7 @@ type lhist struct {
 	slow       bool // consumer accepts everything first and reads afterwards
 	closeAfter int  // close the listener after this many accepts (-1: at the end)
 	procs      int
+	staggered  bool // clients connect one after the other: later connections reuse the pooled buffers of earlier ones
 }
 
 func runListenerHistory(r *vrng, h lhist) (sig, desc string, summary string) {
@@ -164,6 +167,9 @@ func runListenerHistory(r *vrng, h lhist) (sig, desc string, summary string) {
 	}
 	for _, c := range clients {
 		cwg.Add(1)
+		if h.staggered {
+			time.Sleep(1500 * time.Microsecond)
+		}
 		go func(c *lclient) {
 			defer cwg.Done()
 			conn, err := net.Dial("tcp", inner.Addr().String())
@@ -311,7 +317,13 @@ func runListenerHistory(r *vrng, h lhist) (sig, desc string, summary string) {
 	if leaked > 2 {
 		return "goroutine-leak", fmt.Sprintf("%d goroutines more than before remain after Close", leaked), ""
 	}
-	return "", "", fmt.Sprintf("clients=%d delivered=%d slow=%v closeAfter=%d procs=%d", h.n, len(delivered), h.slow, h.closeAfter, h.procs)
+	nw := 0
+	for _, d := range delivered {
+		if c := byAddr[d.addr]; c != nil && c.class == 'W' {
+			nw++
+		}
+	}
+	return "", "", fmt.Sprintf("clients=%d delivered=%d wrapped=%d slow=%v closeAfter=%d procs=%d", h.n, len(delivered), nw, h.slow, h.closeAfter, h.procs)
 }
 
 func TestVerifListener(t *testing.T) {
@@ -322,10 +334,14 @@ func TestVerifListener(t *testing.T) {
 	stats := map[string]int{}
 	for i := 0; i < n; i++ {
 		h := lhist{n: r.pick(1, 3, 8, 20, 40, 64), slow: r.intn(2) == 0, closeAfter: r.pick(-1, -1, 0, 1, 3, 10), procs: r.pick(1, 2, 4, 16)}
+		if i%6 == 2 || i%6 == 4 {
+			// handed-over connections are read long after later connections went through matching
+			h = lhist{n: r.pick(8, 20, 48), slow: true, closeAfter: -1, procs: r.pick(1, 2, 4, 16), staggered: true}
+		}
 		if i%6 == 5 {
 			h = lhist{ipOnly: true, n: r.pick(1, 3, 8), slow: true, closeAfter: -1, procs: r.pick(1, 4)}
 		}
-		fmt.Fprintf(out.cases, "listener clients=%d slow=%v closeAfter=%d procs=%d ipOnly=%v\n", h.n, h.slow, h.closeAfter, h.procs, h.ipOnly)
+		fmt.Fprintf(out.cases, "listener clients=%d slow=%v closeAfter=%d procs=%d ipOnly=%v staggered=%v\n", h.n, h.slow, h.closeAfter, h.procs, h.ipOnly, h.staggered)
 		out.cases.Flush()
 		sig, desc, sum := runListenerHistory(r, h)
 		if sig != "" {
